@@ -356,6 +356,10 @@ class Dendrogram(object):
             s._fill_footprint(self.index_map, idx, recursive=False)
             self._structures_dict[idx] = s
 
+        # The trunk was sorted by the temporary identifiers: keep it in the
+        # order of the final ones, which is the order prune() produces
+        self.trunk = _sorted_by_idx(self.trunk)
+
         # Remove border from index map
         s = tuple(slice(0, s, 1) for s in data.shape)
         self.index_map = self.index_map[s]
